@@ -1012,8 +1012,12 @@ fn run_corpus(args: &Args, prop: &'static str, plan: Plan) -> i32 {
                                         render_items(&items2, &mut src2, &mut rg, 0, false);
                                         if let drive::Reply::Value(v2) = drv.call(*id, "from_list", &src2) {
                                             c.count("suggestions_resent");
+                                            // the substituted item must not be rejected as unknown: at the top level (where
+                                            // it was written) there is no more unknown `y` than there was before — the same
+                                            // name may well be unknown, legitimately, somewhere deeper
+                                            let before = leaves.iter().filter(|l| l.family == 'U' && l.path.is_empty() && l.named.as_deref() == Some(y.as_str())).count();
                                             let still_unknown = match parse_reply(&v2) {
-                                                Observed::Err { leaves, .. } => leaves.iter().any(|l| l.family == 'U' && l.named.as_deref() == Some(y.as_str())),
+                                                Observed::Err { leaves, .. } => leaves.iter().filter(|l| l.family == 'U' && l.path.is_empty() && l.named.as_deref() == Some(y.as_str())).count() > before,
                                                 _ => false,
                                             };
                                             if still_unknown {
